@@ -883,7 +883,22 @@ impl<'a> Sim<'a> {
 			return Err("NRDKernelPreHF3".into());
 		}
 		let st = self.ledger.state_at(&b.header.prev_hash);
-		map_ref(st.check_block(b))
+		match st.check_block(b) {
+			// inputs that declare other features than the output has: refused either way; which of the three rules the
+			// spend breaks is judged on the outputs spent
+			Err(RefReject::FeatureMismatch(_)) => {
+				use grin_core::core::{CommitWrapper, Inputs};
+				let mut b2 = b.clone();
+				let mut v: Vec<CommitWrapper> = vcommon::ledger::inputs_vec(&b.inputs()).iter().map(|(c, _)| CommitWrapper::from(*c)).collect();
+				v.sort_unstable();
+				b2.body.inputs = Inputs::CommitOnly(v);
+				match st.check_block(&b2) {
+					Ok(()) => Err("FeatureMismatch".into()),
+					r => map_ref(r),
+				}
+			}
+			r => map_ref(r),
+		}
 	}
 
 	/// Compare one decision with the oracle; returns true when they agree.
@@ -1210,10 +1225,24 @@ impl<'a> Sim<'a> {
 				None => return,
 			};
 			let class = self.class_for(br, win);
-			let b = match self.mk_block(&parent, &txs, diff) {
+			let mut b = match self.mk_block(&parent, &txs, diff) {
 				Some(b) => b,
 				None => return,
 			};
+			// every second immature spend arrives with (features, commitment) inputs that declare the coinbase a plain
+			// output (what a peer speaking the older protocol version can send): the rule is about the output spent, not
+			// about what the input says of it
+			if let Some(("maturity", -1)) = ev.dec {
+				if self.prng.bool() {
+					use grin_core::core::{Input, Inputs, OutputFeatures};
+					let mut v: Vec<Input> = vcommon::ledger::inputs_vec(&b.inputs()).iter().map(|(c, _)| Input::new(OutputFeatures::Plain, *c)).collect();
+					if !v.is_empty() {
+						v.sort_unstable();
+						b.body.inputs = Inputs::FeaturesAndCommit(v);
+						self.run.count("maturity_decisions_on_blocks_whose_inputs_declare_the_coinbase_a_plain_output", 1);
+					}
+				}
+			}
 			let class = if self.restart_before_decisions && ev.dec.is_some() {
 				self.restart();
 				if !self.ok() {
@@ -2511,6 +2540,7 @@ fn main() {
 			4,
 		);
 		run.require("scenarios run", run.counter("scenarios_run"), core as u64);
+		run.require("immature spends in blocks whose inputs declare the coinbase a plain output", run.counter("maturity_decisions_on_blocks_whose_inputs_declare_the_coinbase_a_plain_output"), 6);
 		run.require("maturity decisions on one transaction spending a mature and an immature coinbase, the mature one sorting first", run.counter("two_coinbase_inputs.mature_sorts_first"), 3);
 		run.require("the same, the immature one sorting first", run.counter("two_coinbase_inputs.immature_sorts_first"), 2);
 		run.require("repeated NRD kernel (4-6 occurrences): scenarios agreeing with the reference rule", run.counter("nrd_repeated.scenarios_agreeing"), run.tier.pick(40, 160));
